@@ -233,7 +233,7 @@ impl Server for QuakeServer {
         let n = self.attempts;
         self.attempts += 1;
         match self.outcomes.get(n).copied().unwrap_or(Outcome::Valid) {
-            Outcome::Silent => {}
+            Outcome::Silent | Outcome::Partial => {}
             Outcome::Malformed => {
                 if cx.draw(2) == 0 {
                     cx.udp_send(from, vec![0xff, 0xff, 0xff, 0xff, b'?', b'?']);
